@@ -166,3 +166,12 @@ check("C20",
 CHECKS["C09"]["packages"] = ["l1chan", "l2node", "l2transport"]
 CHECKS["C10"]["packages"] = ["l2node", "l2transport"]
 CHECKS["C07"]["packages"] = ["l1chan", "l2transport"]
+
+check("C15",
+      packages=["l2network"],
+      category="fault_enumeration",
+      technique="exhaustive enumeration of stream-open fault patterns x retry configurations x cancellation points x write/reset faults on the real libp2p network layer over a scripted host, under a virtual clock; inbound: exhaustive short streams of message kinds and malformed items",
+      rule="outbound: attempts in {1,2,3,4|5} x factor {1,5} x every open pattern in {fail,ok(,hang)}^attempts x cancellation at {never, before attempt i, during back-off i, during the write} x write {ok,error} x reset {ok,error} x message kind; oracle: stream-open attempts = min(first success, attempts), never more than configured; nil result iff an attempt succeeded and the write succeeded; bytes written decode to the message, once, to the intended peer, stream closed; failed write => reset + reported; cancellation => returns ctx error without the virtual clock moving. inbound: every stream of 1..2(3) messages of 10 kinds, 7 malformed items alone/after/before good ones, nil delegate; oracle: dispatch sequence = messages in order, kind-matched, authenticated peer; malformed => reset + exactly one error; nothing after. distinct = distinct outcome classes.",
+      design_ref="DESIGN.md 5/C15",
+      level_text="exhaustive over the stated fault product",
+      level_note="back-off jitter uses math/rand: durations are not pinned, the oracles do not depend on them (only on attempt counts and on the clock not advancing after a cancel)")
